@@ -91,6 +91,13 @@ def make_run(cfg):
     C, I = base_messages()
 
     def run_fn(chooser):
+        if cfg.get("logging"):
+            from vf.common import FormattingLogSink
+            with FormattingLogSink():
+                return run_fn_inner(chooser)
+        return run_fn_inner(chooser)
+
+    def run_fn_inner(chooser):
         pool_small = cfg["pool"] == "full"
         watch = None
         if cfg.get("watch") == "pool":
@@ -312,6 +319,10 @@ def run(ctx):
         for lab, phase, ending in (("garbage.interrupt", "after-handshake", "close"), ("I.trunc@-1", "after-handshake", "reset")) + (() if ctx.quick else (("garbage.interrupt", "first", "close"), ("C.trunc@39", "first", "reset"), ("I.raises-unserialisable", "after-handshake", "close"))):
             cfgs.append({"server": server, "timeout": 0.0, "pool": "roomy", "stream": lab, "phase": phase, "ending": ending, "witness_reconnects": True,
                          "p": 1, "r": 1 if ctx.quick else 2, "horizon": 4000})
+    # every stream once more under the default schedule with debug logging switched on (the daemon's log calls format their arguments)
+    for c in list(cfgs):
+        if c["p"] == 0 and c["r"] == 0 and c["server"] in ("multiplex", "thread") and c["timeout"] == 0.0 and c["ending"] in ("close", "reset") and c["pool"] != "full":
+            cfgs.append(dict(c, logging=True))
     stats = explore_parallel(ctx, task, cfgs, lambda c: c["p"], lambda c: c["r"])
     ns = len(attack_streams(ctx.quick))
     cov = coverage_from_stats(
